@@ -1,9 +1,9 @@
 package main
 
 import (
-	"os"
 	"fmt"
 	"go/types"
+	"os"
 	"strings"
 
 	"golang.org/x/tools/go/ssa"
@@ -239,7 +239,15 @@ func (fc *FnCtx) call(ins ssa.Instruction, cc *ssa.CallCommon, res ssa.Value) {
 		}
 	}
 	if c != nil && !c.Inline {
+		// a closure under contract: its captured variables are named in the contract (as pointers to the variables)
+		fc.pendingClosure = nil
+		if ci != nil && ci.fn == callee {
+			fc.pendingClosure = ci
+		}
+		fc.calleeFn = callee
 		setResult(fc.applyContract(ins, c, name, callee.Signature, args, true, cc))
+		fc.calleeFn = nil
+		fc.pendingClosure = nil
 		return
 	}
 	if callee.Blocks != nil && (callee.Parent() != nil || (c != nil && c.Inline)) && fc.depth < 6 {
@@ -288,8 +296,15 @@ func (fc *FnCtx) unknownCall(ins ssa.Instruction, name string, sig *types.Signat
 		}
 		if os.Getenv("GOVC_DEBUG") != "" {
 			cc := callCommonOf(ins)
-			if sc := cc.StaticCallee(); sc != nil { fmt.Fprintf(os.Stderr, "  sc=%s blocks=%v pkg=%v synth=%q\n", sc, sc.Blocks != nil, sc.Pkg, sc.Synthetic) }
-			fmt.Fprintf(os.Stderr, "unknownCall %s invoke=%v keep=%d type=%T\n", name, cc != nil && cc.IsInvoke(), len(keep), func() any { if cc != nil { return cc.Value.Type() }; return nil }())
+			if sc := cc.StaticCallee(); sc != nil {
+				fmt.Fprintf(os.Stderr, "  sc=%s blocks=%v pkg=%v synth=%q\n", sc, sc.Blocks != nil, sc.Pkg, sc.Synthetic)
+			}
+			fmt.Fprintf(os.Stderr, "unknownCall %s invoke=%v keep=%d type=%T\n", name, cc != nil && cc.IsInvoke(), len(keep), func() any {
+				if cc != nil {
+					return cc.Value.Type()
+				}
+				return nil
+			}())
 		}
 		before := fc.cur.clone()
 		g.havocAllExcept(fc.cur, name, fc.privateSkip(ins))
@@ -644,18 +659,53 @@ func (fc *FnCtx) applyContract(ins ssa.Instruction, c *Contract, name string, si
 			env.vars[pn[i]] = a
 		}
 	}
+	if ci := fc.pendingClosure; ci != nil {
+		for i, fv := range ci.fn.FreeVars {
+			if i < len(ci.bindings) {
+				v := Val{t: ci.bindings[i].t, ty: fv.Type()}
+				if i < len(ci.cells) {
+					v.cell = ci.cells[i]
+				}
+				env.vars[fv.Name()] = v
+			}
+		}
+	}
 	env.oldState = fc.cur
 	short := lastPart(strings.ReplaceAll(shortPkg(name), ")", ""))
+	trustPre := func(i int) bool { return false }
+	{
+		root := fc
+		for root.parent != nil {
+			root = root.parent
+		}
+		if root.c != nil {
+			// trustpre CALLEE (all preconditions) | CALLEE.N (the N-th one)
+			tp := root.c.TrustPre
+			trustPre = func(i int) bool {
+				if contains(tp, short) {
+					g.trusted["assumed in "+root.c.Key+": the preconditions of "+short+" hold at its call sites (trustpre)"] = true
+					return true
+				}
+				if contains(tp, fmt.Sprintf("%s.%d", short, i+1)) {
+					g.trusted[fmt.Sprintf("assumed in %s: precondition %d of %s holds at its call sites (trustpre): %s", root.c.Key, i+1, short, c.Requires[i].Src)] = true
+					return true
+				}
+				return false
+			}
+		}
+	}
 	for i, r := range c.Requires {
 		t := env.boolExpr(r.Expr)
-		fc.oblige("pre", fmt.Sprintf("%s.%d", short, i+1), posOf(ins), t, r.Src, r.Name)
+		if !trustPre(i) {
+			fc.oblige("pre", fmt.Sprintf("%s.%d", short, i+1), posOf(ins), t, r.Src, r.Name)
+		}
 		fc.assume(t, "callee precondition")
 	}
 	old := fc.cur.clone()
 	// frame
 	if !c.ModSet {
 		// the caller's private keys survive, except ghost variables the callee's own contract talks about
-		skip := fc.privateSkip(ins)
+		skip := fc.privateSkipFn(ins, fc.calleeFn)
 		if len(skip) > 0 {
 			s2 := map[string]bool{}
 			for k := range skip {
@@ -717,7 +767,7 @@ func (fc *FnCtx) applyContract(ins ssa.Instruction, c *Contract, name string, si
 			fc.assume(fmt.Sprintf("(<= %s %s)", oa, g.get(fc.cur, "$alloc")), "alloc grows")
 		}
 		for _, t := range targets {
-			if t.whole && g.keys[t.key].ref != "" {
+			if t.whole && g.keys[t.key].hasRef() {
 				g.heapBound(t.key, g.get(fc.cur, t.key), g.get(fc.cur, "$alloc"))
 			}
 		}
@@ -854,7 +904,11 @@ func (sub *FnCtx) genPrep(args []Val, ci *closureInfo) {
 	for i, fv := range sub.fn.FreeVars {
 		if ci != nil && i < len(ci.bindings) {
 			sub.preVals[fv] = Val{t: ci.bindings[i].t, ty: fv.Type()}
-			sub.params[fv.Name()] = sub.preVals[fv]
+			pv := sub.preVals[fv]
+			if i < len(ci.cells) {
+				pv.cell = ci.cells[i]
+			}
+			sub.params[fv.Name()] = pv
 		}
 	}
 }
